@@ -691,6 +691,8 @@ class Exec:
                     a = self.read_ref(a)
                 if not z3.is_expr(a):
                     return None
+                if not a.sort().eq(ph.sort()):
+                    return None
                 subs.append((ph, a))
             self.stats['merged'] += 1
             try:
